@@ -179,6 +179,14 @@ class C15:
                     out[name] = kp.dumps(d, encoding=ENC[name])
                 except Exception as e:
                     out[name] = 'raised ' + type(e).__name__
+            # the measure index belongs to the grid too: first measure, last measure, measure count
+            for name, fn in (('m_first', lambda: kp.dumps(d, from_measure=1, to_measure=1, encoding=ENC['ekern'])),
+                             ('m_last', lambda: kp.dumps(d, from_measure=d.measures_count(), to_measure=d.measures_count(), encoding=ENC['ekern'])),
+                             ('m_count', lambda: str(d.measures_count())), ('spines', lambda: repr(kp.spine_types(d)))):
+                try:
+                    out[name] = fn()
+                except Exception as e:
+                    out[name] = 'raised ' + type(e).__name__
             return out
 
         ivs_done = set()
@@ -190,7 +198,7 @@ class C15:
                     continue
                 now = exports(h['doc'])
                 if now != h['recorded']:
-                    encs = [e for e in SIX if now[e] != h['recorded'][e]]
+                    encs = [e for e in now if now[e] != h['recorded'][e]]
                     kind = h['kind']
                     add_v('handle-altered', f'handle-altered/{kind}/by={opname}', 'exports as recorded at creation', {'changed encodings': encs},
                           handle=hi, handle_kind=kind, op=opname, chain=h['chain'],
@@ -242,7 +250,7 @@ class C15:
                 rec = exports(c)
                 log.emit('client', 'clone', hi, digest_of(rec))
                 if rec != h['recorded']:
-                    add_v('clone-differs', 'clone-differs', 'exports of the original', [e for e in SIX if rec[e] != h['recorded'][e]], handle=hi)
+                    add_v('clone-differs', 'clone-differs', 'exports of the original', [e for e in rec if rec[e] != h['recorded'][e]], handle=hi)
                 handles.append({'doc': c, 'src': h['src'], 'chain': list(h['chain']), 'recorded': rec, 'kind': 'clone', 'base': h['base'],
                                 'unconstrained': set(h.get('unconstrained', ()))})
                 check_all('clone', created=len(handles) - 1)
@@ -291,6 +299,14 @@ class C15:
                 if h['kind'] == 'clone':
                     bump(probes, 'clone_then_transpose')
                 self._check_result(docs[h['src']], h, newh, exp_cells, kind, iv, direction, plan['class'], add_v, probes, bump)
+                for key in ('m_count', 'spines'):
+                    if rec[key] != h['recorded'][key]:
+                        add_v('grid-changed', 'grid-changed/' + key, h['recorded'][key], rec[key])
+                for key in ('m_first', 'm_last'):
+                    a, b = h['recorded'][key], rec[key]
+                    if a.startswith('raised ') != b.startswith('raised ') or (not a.startswith('raised ') and
+                                                                               [l.count('\t') for l in a.split('\n')] != [l.count('\t') for l in b.split('\n')]):
+                        add_v('grid-changed', 'grid-changed/' + key, a[:200], b[:200])
                 if kind == 'back' and not new_chain and not uncon:
                     # transposing back restores the source export (compared on the eKern export of the source)
                     if rec['ekern'] == h['base']:
